@@ -96,7 +96,7 @@ PROPERTIES = {
         ],
     },
     "C12": {
-        "modules": ["contracts.core_models", "contracts.c13_types", "contracts.c06_ports", "contracts.c12_instances", "contracts.c12_register"],
+        "modules": ["contracts.core_models", "contracts.c13_types", "contracts.c06_ports", "contracts.c12_instances", "contracts.c12_register", "contracts.c08_temporaries", "contracts.c08_cleanup", "contracts.c12_actuals"],
         "level": "proof",
         "explanation": "the structural half of the statement is decided function by function, each proved from the real source: (1) Entity._port_declarations emits exactly the declared ports, in declaration order, each line starting with the declared name and carrying the declared direction, and only returns when declared name == scope name (C06 contract, symbolic names); (2) cohdl.Entity.__init__ associates every formal with exactly the actual passed for it, rejects unknown names, missing actuals and incompatible actuals, and removes the default only from the object an instance output drives (a slice actual leaves the rest of its root initialised); (3) EntityInst._port_map / _generic_map list every formal once, in declaration order, with the text of its own actual for every order of the actuals dictionary; (4) VhdlAssembler.apply converts an entity template once (cache hit returns the converted entity, a new conversion is registered), declares its ports in order under their declared names, and gives every output port one buffer initialised with the port's default whenever it has one; (5) Library.from_top_entity lists every entity once, sub-entities before their users, over instantiation DAGs incl. shared templates.",
         "assumptions": COMMON_ASSUME + [
@@ -230,7 +230,7 @@ PROPERTIES = {
         ],
     },
     "C08": {
-        "modules": ["contracts.core_models", "contracts.c08_temporaries", "contracts.c08_cleanup", "contracts.c03_refvisit"],
+        "modules": ["contracts.core_models", "contracts.c08_temporaries", "contracts.c08_cleanup", "contracts.c03_refvisit", "contracts.c12_actuals"],
         "level": "proof",
         "explanation": "the definite-assignment analysis of compiler-generated intermediates (detect_uninitialized_temporaries / search_invalid_temporaries) is proved sound against the textbook definite-assignment semantics of if / case (with and without default) / sequence by structural induction: sidecar loop invariants for the statement loop and the case-branch loop, the function's own contract as induction hypothesis for recursive calls, sets of object identities as z3 sets; every read (direct or through a reference path) is shown to reach the check; cleanup_unused is proved to remove only assignments whose root is read nowhere; StatemachineContext._check_temporaries is proved to accept a state only if the first access to every intermediate is a write",
         "assumptions": COMMON_ASSUME + [
